@@ -137,3 +137,30 @@ func FieldKeyString(str string) string {
 	// first letter lower case
 	return strings.ToLower(str[:1]) + str[1:]
 }
+
+// addrSerializable finds the self-serialising implementation (S = Serializable or SerializableJSON) of a value that is
+// held by value while the type declares its methods on the pointer receiver.  Decode / MapDecode find such a type's
+// Decode / DecodeJSON through value.Addr(): when the pointer type implements both S and its decoding counterpart D,
+// Encode / MapEncode have to use the type's own encoding as well - otherwise they write the reflective form, which the
+// type's own decoder refuses.  A value that is not addressable is copied first.
+func addrSerializable[S, D any](value reflect.Value, valueType reflect.Type) (S, bool) {
+	var none S
+	if valueType.Kind() == reflect.Ptr || valueType.Kind() == reflect.Interface {
+		return none, false
+	}
+	ptrType := reflect.PointerTo(valueType)
+	if !ptrType.Implements(reflect.TypeOf((*S)(nil)).Elem()) || !ptrType.Implements(reflect.TypeOf((*D)(nil)).Elem()) {
+		return none, false
+	}
+	addr := value
+	if !addr.CanAddr() {
+		addr = reflect.New(valueType).Elem()
+		addr.Set(value)
+	}
+	if !addr.Addr().CanInterface() {
+		return none, false
+	}
+	serializable, ok := addr.Addr().Interface().(S)
+
+	return serializable, ok
+}
